@@ -122,4 +122,8 @@ def scenarios():
     add("c03-late-prompt-nak-spins", cfg(limit=2, file=[1, 2, 0]),
         [SC("PromptNak"), S, S, S, S, S, Dr(), Dr(), Dr(), Dr(), Dr(), R, R, R, Ds(), Ds(), Ds(), S, Drop("c2r"),
          T(2), RT, R, Ds(), T(1), RT], [])
+    # C10 (found by TLC, MC unackcCancelR): unacknowledged + closure, cancel at the receiver: the Finished(cancel)
+    # used to be prepared but never sent because the transaction shut down first
+    add("c10-unack-closure-receiver-cancel", cfg(mode="unack", closure=True, limit=2, file=[1, 2, 0]),
+        [S, Dr(), RC("Cancel"), R, Ds(), T(2), RT, R, Ds(), T(2), RT], [])
     return out
